@@ -261,6 +261,20 @@ class C08(Prop):
             v = g.header()
             ops.append(mk('dec Header b' + refcbor.encode(v).hex(), k='enc-indep', grp=len(ops)))
             ops.append(mk('dec Header b' + g.venc(v).hex(), k='enc-indep2'))
+        # near-duplicates are distinct labels: equal up to surrounding white space, case, a leading zero, normalisation form, or the
+        # same digits as an integer and as a text — in both orders, alone and among other entries, in every map the crate reads
+        # (informed round 8: the trimmed form of a text label recorded as seen)
+        Tx = lambda b: ('text', b); I_ = lambda x: ('int', x)
+        near = [(Tx(b' a'), Tx(b'a')), (Tx(b'a '), Tx(b'a')), (Tx(b'kid\n'), Tx(b'kid')), (Tx('\u00a0x'.encode()), Tx(b'x')), (Tx(b'A'), Tx(b'a')), (Tx(b'01'), Tx(b'1')), (Tx(b'100'), I_(100)), (Tx(b'-1'), I_(-1)),
+                (Tx('\u00e9'.encode()), Tx('e\u0301'.encode())), (Tx(b''), Tx(b' ')), (I_(100), I_(-101)), (Tx(b'ab'), Tx(b'ab\x00'))]
+        for a, b in near:
+            for x, y in ((a, b), (b, a)):
+                for extra in ([], [(I_(200), I_(0))]):
+                    m = [(x, I_(1))] + extra + [(y, I_(2))]
+                    e = refcbor.encode(('map', m)).hex()
+                    ops.append(mk('dec Header b' + e, k='near-dup')); ops.append(mk('dec CoseSign1 b8440' + e + 'f640', k='near-dup'))
+                    ops.append(mk('dec CoseSign1 b84' + refcbor.head(2, len(bytes.fromhex(e))).hex() + e + 'a0f640', k='near-dup'))
+                    ops.append(mk('dec CoseKey b' + refcbor.encode(('map', [(I_(1), I_(1))] + m)).hex(), k='near-dup')); ops.append(mk('dec ClaimsSet b' + e, k='near-dup'))
         return ops
     def judge_pairs(self): return True
 
@@ -324,6 +338,17 @@ class C09(Prop):
                     for t in self.STRUCTS: ops.append(mk('dec %s b%s' % (t, b), k='subst%d' % arity))
         for v in (('map', []), I(1), B(b''), ('null',), ('tag', 18, ('array', good[4]))):
             for t in self.STRUCTS: ops.append(mk('dec %s b%s' % (t, refcbor.encode(v).hex()), k='nonarray'))
+        # counter-signature nesting around the budget (16), through every header slot of every structure, bare and list forms mixed
+        # (informed round 8: the list form restarted the budget in one decoder arm; another entry point got one level less)
+        for k in (15, 16, 17, 18, 33):
+            for pat in NEST_PATTERNS:
+                h = nestG(k, pat); hb = refcbor.head(2, len(h)) + h
+                for t, pre, post in (('CoseSign1', b'\x84', b'\xf6\x40'), ('CoseMac0', b'\x84', b'\xf6\x40'), ('CoseEncrypt0', b'\x83', b'\xf6'), ('CoseRecipient', b'\x83', b'\xf6'), ('CoseSignature', b'\x83', b'\x40'),
+                                     ('CoseSign', b'\x84', b'\xf6\x80'), ('CoseEncrypt', b'\x84', b'\xf6\x80'), ('CoseMac', b'\x85', b'\xf6\x40\x80')):
+                    ops.append(mk('dec %s b%s' % (t, (pre + b'\x40' + h + post).hex()), k='nest-unprot', n=k))
+                    ops.append(mk('dec %s b%s' % (t, (pre + hb + b'\xa0' + post).hex()), k='nest-prot', n=k))
+                ops.append(mk('dec CoseSign b%s' % (b'\x84\x40\xa0\xf6\x81\x83\x40' + h + b'\x40').hex(), k='nest-signer', n=k))
+                ops.append(mk('dec CoseEncrypt b%s' % (b'\x84\x40\xa0\xf6\x81\x83' + hb + b'\xa0\xf6').hex(), k='nest-recipient', n=k))
         # long lists: every element still lands at its own index when the list crosses an array-head class or a plausible cap
         # (informed-adversary round: `.take(65536)` in the shared list converter drops signer 65537 silently)
         for n in (16, 17, 18, 24, 25, 255, 256, 257):
@@ -386,6 +411,11 @@ class C11(Prop):
             if r.random() < 0.2: ops.append(mk('tov %s %s' % (t, x), k=t + ':value'))
         for h in ('(hdr - (crit) - b b b (cs) (rest))', '(hdr - (crit) - b b b (cs (sig (ph - (hdr - (crit) - b b b (cs) (rest))) (hdr - (crit) - b b b (cs) (rest)) b)) (rest))', '(hdr - (crit) - b b b (cs) (rest i9 N))', '(hdr A-7 (crit) - b b b (cs) (rest))'):
             ops.append(mk('isempty ' + h, k='isempty')); ops.append(mk('tobstr (ph - %s)' % h, k='tobstr')); ops.append(mk('enc CoseSign1 (sign1 (ph - %s) %s - b)' % (h, h), k='protform'))
+        # a header holding both an IV and a Partial IV is a legal in-memory value: each is emitted under its label (informed round 8)
+        for alg in ('-', 'A1'):
+            for piv in ('0a0b', '0c0d'):
+                h = '(hdr %s (crit) - b b0102 b%s (cs) (rest))' % (alg, piv)
+                for op in ('enc Header %s', 'tov Header %s', 'tobstr (ph - %s)', 'enc CoseSign1 (sign1 (ph - %s) (hdr - (crit) - b b b (cs) (rest)) - b)'): ops.append(mk(op % h, k='both-iv:stored'))
         # long lists inside built values: every element is emitted (counter signatures, critical labels, signers, recipients, key
         # operations would need distinct registered values, extra parameters, SuppPrivInfo)
         E = C02.EMPTY
